@@ -432,8 +432,9 @@ func (r *Run) Finish(verifDir string, start time.Time, seed int, cmdline string)
 		case Violated, Undecided:
 			matched := false
 			if o.Verdict == Violated {
+				base := strings.TrimSuffix(strings.TrimSuffix(o.Construct, "@386"), "@tests")
 				for _, f := range findings {
-					if f.Prop == r.Prop && f.Rule == o.Rule && f.Construct == o.Construct {
+					if f.Prop == r.Prop && f.Rule == o.Rule && f.Construct == base {
 						matched = true
 						f.used = true
 						o.Known = f.Text
